@@ -8,8 +8,10 @@ import (
 	"strconv"
 	"strings"
 
+	"github.com/trustbloc/sidetree-core-go/pkg/api/operation"
 	"github.com/trustbloc/sidetree-core-go/pkg/commitment"
 	"github.com/trustbloc/sidetree-core-go/pkg/dochandler"
+	"github.com/trustbloc/sidetree-core-go/pkg/document"
 	"github.com/trustbloc/sidetree-core-go/pkg/hashing"
 	"github.com/trustbloc/sidetree-core-go/pkg/jws"
 	"github.com/trustbloc/sidetree-core-go/pkg/processor"
@@ -286,6 +288,7 @@ func c08(r *hx.Run) {
 		fx.SHA512: dochandler.New(ns, nil, client512, &recWriter{}, processor.New("verif", fx.SliceStore(nil), client512), fx.Metrics),
 	}
 	var handler *dochandler.DocumentHandler
+	var lfUpdateReq []byte // an update request for the long-form DID under test, passed as a caller-supplied operation
 	longForm := func(cs *fx.CreateSpec) (did string, suffix string, initial string, tree map[string]interface{}) {
 		req, sfx := fx.Create(cs)
 		t := fx.MustJSON(string(req)).(map[string]interface{})
@@ -303,6 +306,22 @@ func c08(r *hx.Run) {
 			}()
 			res, err := handler.ResolveDocument(did)
 			ok = err == nil && res != nil
+			// a long-form DID that is refused stays refused whatever resolution options accompany it (operations supplied by the
+			// caller, a version id, a version time); a version option may turn an acceptable one into an error (unknown version)
+			seg := strings.Split(did, ":")
+			sfx := ""
+			if len(seg) >= 2 {
+				sfx = seg[len(seg)-2]
+			}
+			add := document.WithAdditionalOperations([]*operation.AnchoredOperation{{Type: operation.TypeUpdate, UniqueSuffix: sfx, OperationRequest: lfUpdateReq, TransactionTime: 5}})
+			for oi, opt := range []document.ResolutionOption{add, document.WithVersionID("unknown"), document.WithVersionTime("1970-01-01T00:00:09Z")} {
+				res2, err2 := handler.ResolveDocument(did, opt)
+				r.Eval()
+				if ok2 := err2 == nil && res2 != nil; ok2 && !ok {
+					r.Violation(fmt.Sprintf("long-form-accepted-with-resolution-option:%d", oi), caseID+fmt.Sprintf("|opt%d", oi),
+						fmt.Sprintf("long-form DID %s: resolves=%v without options, %v with option %d (0 additional operations, 1 version id, 2 version time): %v", hx.Trunc(did, 160), ok, ok2, oi, err2), map[string]interface{}{"did": did})
+				}
+			}
 		}()
 		r.Eval()
 		r.Trans(1)
@@ -329,6 +348,8 @@ func c08(r *hx.Run) {
 	for li, lc := range lfCases {
 		did, suffix, initial, tree := longForm(lc.spec)
 		handler = handlers[lc.code]
+		lfUpdateReq = (&fx.OpSpec{Type: "update", Suffix: suffix, SignKey: fx.NewKey(lc.kt, "c08/u"), NextUpdate: fx.Commit(fx.NewKey(lc.kt, "c08/u2"), lc.code),
+			Patches: []interface{}{fx.AddServicePatch("lf", "https://example.com/lf")}, Code: lc.code}).Build()
 		tag := "D|" + lc.label
 		r.State()
 		if !resolves(tag+"|valid", did) {
